@@ -8,7 +8,7 @@ import shutil
 import subprocess
 import time
 
-SPEC_DIR = "/verif/spec"
+SPEC_DIR = os.path.join(os.environ.get("VERIF_ROOT", "/verif"), "spec")
 JAR = "/opt/veriftools/tla/tla2tools.jar:/opt/veriftools/tla/CommunityModules-deps.jar"
 
 
